@@ -217,3 +217,37 @@ def _encode_contract(cls, target):
 
 _encode_contract(MsisdnAVP, "bromelia.avps.etsi_3gpp.ts_129_329.MsisdnAVP.encode")
 _encode_contract(StnSrAVP, "bromelia.avps.etsi_3gpp.ts_129_272.StnSrAVP.encode")
+
+
+# ------------------------------------------------------------------ bounded companion (never counted as proved)
+import itertools as _it                    # noqa: E402
+import os as _os                           # noqa: E402
+from pyvc.api import table                 # noqa: E402
+
+
+def _digit_strings(maxlen):
+    for n in range(0, maxlen + 1):
+        for t in _it.product("0123456789", repeat=n):
+            yield "".join(t)
+
+
+@table("small-digit-strings", prop="C18")
+def small_digit_strings():
+    """the contract clauses above evaluated natively on the real functions for EVERY digit string up to
+    a length bound (plus the numbers they denote), so that a rewrite the proof cannot follow is still
+    checked on small inputs with the failing input in hand"""
+    from pyvc.conform import conform
+    n = 5 if _os.environ.get("VERIF_TIER") == "thorough" else 4
+    idx = lambda ns: {"_j": range(-1, n + 3), "_k": range(-1, n + 3), "_p": range(-1, n + 3)}   # noqa: E731
+    out = []
+    c1 = conform("C18/utils.encode_to_tbcd[str]", ({"input": s} for s in _digit_strings(n)), idx)
+    c2 = conform("C18/utils.encode_to_tbcd[int]", ({"input": int(s)} for s in _digit_strings(n) if s), idx)
+    c3 = conform("C18/utils.decode_from_tbcd", ({"input": U.encode_to_tbcd(s)} for s in _digit_strings(n)), idx)
+    c4 = conform("C18/utils.decode_from_tbcd[roundtrip]", ({"s": s} for s in _digit_strings(n)), idx,
+                 call=lambda target, ns: roundtrip(ns["s"], 0))
+    for nm, (chk, skip, fails) in (("encode-str", c1), ("encode-int", c2), ("decode", c3), ("roundtrip", c4)):
+        out.append((nm, not fails and chk > 0, {"checked": chk, "outside_precondition": skip, "failing": fails}))
+    return out
+
+
+small_digit_strings.bounded = "every digit string of length <= 4 (quick) / 5 (thorough), native evaluation of the contract clauses"
